@@ -55,6 +55,12 @@ Proof.
   intros a. split; [intros; eapply mstep_other_keeps; eassumption|]. split; [intros; eapply rotation_keeps; eassumption|].
   intros. apply tracker_resp_keeps.
 Qed.
+(* one task per address (the start rule of the composition): the manager opens a connection only to an address
+   that has no entry, one at a time *)
+Theorem C01_one_task_per_address : forall m,
+  (forall m' a, spawn_peer m = (m', [SpPeer a]) -> pget (m_peers m) a = None) /\
+  (snd (spawn_peer m) = [] \/ exists a, snd (spawn_peer m) = [SpPeer a]).
+Proof. intros m. split; [intros m' a; apply spawn_only_absent | apply spawn_at_most_one]. Qed.
 (* non-vacuity: a reachable composition (handshake, Have, Unchoke with assignment) in which the task assembles
    piece 0 and its PieceDone makes the manager mark and broadcast piece 0 *)
 Example C01_composition_nonvacuous :
@@ -76,3 +82,4 @@ Print Assumptions C01_owned_stays.
 Print Assumptions C01_pair_invariant.
 Print Assumptions C01_marked_is_verified.
 Print Assumptions C01_env_steps.
+Print Assumptions C01_one_task_per_address.
